@@ -1,6 +1,6 @@
 (* C13  Crash atomicity of archive writes.
    Only statements, each closed by a lemma of Store/*.v, with Print Assumptions. *)
-From Klepto Require Import OMap OMapFacts DictSpec DictFacts FileArch Backends DirProto DirBatch SqlCrash.
+From Klepto Require Import OMap OMapFacts DictSpec DictFacts FileArch Backends DirProto DirBatch DirFresh SqlCrash.
 
 (* single file: write the staging file, then replace the target.  Whatever prefix of the actions was
    executed - the write of the staging file possibly cut short - a new process reads the old or the
@@ -88,6 +88,18 @@ Theorem C13_dir_batch_crash : forall js fs i,
   (forall j, In j js -> outcome fs st j).
 Proof. exact batch_crash. Qed.
 
+(* _rmdir as coded: rename aside, or - when the rename fails - remove in place.  With a FRESH temporary
+   name the removal is crash atomic; with a name that is already taken it is not (why the check also
+   verifies that the temporary names in the recorded system calls are fresh random names) *)
+Theorem C13_dir_rmdir_fresh_name_atomic : forall fs n t i, fs (NTemp t) = None -> readable fs ->
+  let st := DirProto.drun fs (firstn i (rmdir_code fs n t)) in
+  readable st /\ (forall n', n' <> n -> entry st n' = entry fs n') /\ (entry st n = entry fs n \/ entry st n = None).
+Proof. exact rmdir_code_fresh_atomic. Qed.
+
+Theorem C13_dir_rmdir_reused_name_refuted :
+  exists fs n t i, readable fs /\ fs (NTemp t) <> None /\ ~ readable (DirProto.drun fs (firstn i (rmdir_code fs n t))).
+Proof. exact rmdir_code_reused_name_refuted. Qed.
+
 (* refuted for an overwrite: between the two renames the key is absent (known finding K2) *)
 Theorem C13_dir_overwrite_window_refuted :
   exists fs n k v t t2 i, t <> t2 /\ readable fs /\
@@ -119,3 +131,5 @@ Print Assumptions C13_sql_step_is_its_statements.
 Print Assumptions C13_sql_op_crash_prefix.
 Print Assumptions C13_sql_untouched_key_unchanged.
 Print Assumptions C13_dir_batch_crash.
+Print Assumptions C13_dir_rmdir_fresh_name_atomic.
+Print Assumptions C13_dir_rmdir_reused_name_refuted.
